@@ -16,7 +16,7 @@ ID = 'C14'
 LEVEL = 'fault_enumeration'
 BUDGET = {'quick': 400, 'thorough': 1500}
 RULE = ('Hypothesis-generated base scripts: a non-decreasing sequence of clock readings (repeats allowed; floats '
-        'that are multiples of 1/8, or integers beyond 2**53 as a nanosecond clock yields, or exact rationals), 1-3 world handles each holding 1-4 recording processors of distinct priorities and an on_quit '
+        'that are multiples of 1/8, or floats ticking in tenths from 0.1 on, or integers beyond 2**53 as a nanosecond clock yields, or exact rationals), 1-3 world handles each holding 1-4 recording processors of distinct priorities and an on_quit '
         'listener, 1-3 start() calls of the same loop object (each ended by the clock raising Quit after its '
         'iteration budget), plus 0-2 generated faults. Each base script is executed as generated and then once '
         'for EVERY (iteration, processor position, action) with action in {raise Quit, quit_loop(world), '
@@ -35,8 +35,9 @@ RULE = ('Hypothesis-generated base scripts: a non-decreasing sequence of clock r
         'Non-trivial = a base script with >= 3 iterations and >= 2 distinct '
         'positive deltas and >= 2 processors in some world, or a restart. Distinct = sha1 of canonical JSON.')
 ASSUMPTIONS = [
-    'float clock readings are multiples of 1/8 below 2**10 (exact differences); integer and Fraction readings '
-    'are compared exactly: the loop must not convert them',
+    'float clock readings are multiples of 1/8 below 2**10 (exact differences) or, clock kind 3, multiples of 0.1 '
+    'started at 0.1 (the expected delta is then the float subtraction of the two readings, i.e. their correctly '
+    'rounded difference); integer and Fraction readings are compared exactly: the loop must not convert them',
     'quit_loop is given the current world or nothing (a left, disabled world would legitimately postpone '
     'on_quit)',
     'clear flags only through raise SwitchWorld (their event semantics are C13\'s subject)',
@@ -67,7 +68,7 @@ def strategy():
         'start': st.integers(0, 80).map(lambda k: k / 8),
         # what the time function returns: 0 floats (multiples of 1/8), 1 integers beyond 2**53 (nanosecond
         # clocks), 2 exact rationals - the deltas are the exact differences in each case
-        'clock': st.integers(0, 2),
+        'clock': st.integers(0, 5).map(lambda k: (0, 1, 2, 3, 3, 3)[k]),
         # foreign: the loop under test is not desper.default_loop (that one holds a bystander world), and every
         # other world handle loads a World subclass whose instances are falsy
         'foreign': st.integers(0, 3).map(lambda k: int(k == 3)),
@@ -144,6 +145,12 @@ class Execution:
             from fractions import Fraction
             conv = lambda x: Fraction(int(x * 8), 3)
             t = conv(case['start'])
+        elif kind == 3:
+            # a float clock ticking in tenths, started away from zero: neither readings nor differences are exact
+            # binary fractions; the delta is the difference as the float type itself computes it (IEEE subtraction,
+            # correctly rounded), which is what "the difference between consecutive readings" means for floats
+            conv = lambda x: x * 0.8
+            t = 0.1 + conv(case['start'])
         else:
             conv = lambda x: x
             t = case['start']
